@@ -13,11 +13,11 @@ import (
 // C09: downstream failures are contained and reported, never masked.
 
 // failure signals: the answer itself says "this failed" => errors must be non-empty
-var c09Signals = []string{"transport", "transport-eof", "transport-reset", "trailing-garbage", "glued", "errors-empty-datanull", "status500", "status500-validbody", "notjson", "object", "short", "long", "empty", "errors1", "errors2", "datanull", "nodata",
+var c09Signals = []string{"transport", "transport-eof", "transport-reset", "trailing-garbage", "glued", "errors-empty-datanull", "status500", "status500-validbody", "notjson", "object", "short", "long", "empty", "errors1", "errors2", "errors-nocode", "errors-noext", "datanull", "nodata",
 	"nonode", "nodestring", "nodelist", "nodenumber"}
 
 // shape faults: values whose shape contradicts the schema => contained, nothing invented
-var c09Shapes = []string{"entry-scalar", "entry-null", "obj-scalar", "obj-list", "obj-empty-list", "list-object", "list-null", "no-id", "foreign-id", "field-null"}
+var c09Shapes = []string{"entry-scalar", "entry-null", "obj-scalar", "obj-list", "obj-list2", "obj-list3-null", "obj-empty-list", "list-object", "list-null", "no-id", "foreign-id", "field-null"}
 
 // benign: a healthy answer in an unusual but valid spelling => the client's answer is the fault-free one
 var c09Benign = []string{"errors-empty-ok"}
